@@ -8,7 +8,7 @@
    [new_reader (finalize w) = Some r] : NewReader on the sections Finalize produced;  theorem 4 says
    that going through the byte image changes nothing ([finalize_reader]). *)
 From Coq Require Import NArith List Lia.
-Require Import Pk.IndexFormat Pk.IndexFormatCodec Pk.IndexFormatHosts Pk.IndexFormatWriter Pk.IndexFormatRefuted.
+Require Import Pk.IndexFormat Pk.IndexFormatCodec Pk.IndexFormatHosts Pk.IndexFormatWriter Pk.IndexFormatData Pk.IndexFormatRefuted.
 Import ListNotations.
 Open Scope N_scope.
 
@@ -68,6 +68,28 @@ Theorem C01_all_streams_enumerate : forall gcap L w r,
   new_reader (finalize w) = Some r ->
   map st_id (all_streams r) = ids_of L /\ (forall id, In id (ids_of L) -> r_min r <= id <= r_max r).
 Proof. intros gcap L w r H1 H2 H3 H4 H5. split; [exact (all_streams_ids gcap L w r H1 H2 H3 H4 H5)|exact (min_max_ids gcap L w r H1 H2 H3 H4 H5)]. Qed.
+
+(* ---------------- 3. payload per direction and direction runs ---------------- *)
+(* the segmentation varint: every size below 2^64 is read back, whatever follows *)
+Theorem C01_varint_roundtrip : forall sz rest, sz < P64 -> read_varint (varint sz ++ rest) 0 = Some (sz, rest).
+Proof. exact read_varint_varint. Qed.
+
+(* The replay loop of Stream.Data() on what AddStream wrote for stream s (payload client->server, payload
+   server->client, segmentation varints, followed by anything): the chunks' bytes concatenated per direction
+   are the stored payload of that direction, and the chunk directions change exactly where the non-empty
+   stored data changes direction (compress drops repeats; nz_dirs = directions of the non-empty runs).
+   _partial: the two time-group lists that the first loop of Data() collects from the packet records are
+   universally quantified here (any positive sizes adding up to the payload per direction); that the packet
+   scan (skip counters, 64 KiB split records, time wrap) delivers such lists, and the chunk times, are
+   checked by the correspondence run only. *)
+Theorem C01_data_replay_partial : forall s tail ptc pts,
+  lenN (stream_payload s false) + lenN (stream_payload s true) < P64 ->
+  total ptc = lenN (stream_payload s false) -> total pts = lenN (stream_payload s true) -> pos_sizes ptc -> pos_sizes pts ->
+  exists cks, replay (S (length (stream_seg s ++ tail))) false (stream_seg s ++ tail)
+                     (stream_payload s false) (stream_payload s true) ptc pts = Some cks /\
+              payload_dir false cks = stream_payload s false /\ payload_dir true cks = stream_payload s true /\
+              compress (map c_dir cks) = compress (nz_dirs (data_runs (s_packets s) (s_data s))).
+Proof. exact data_replay_stream. Qed.
 
 (* ---------------- the reader before fix afb9f18, on the model ---------------- *)
 (* [new_reader_gen true] uses hostGroupEntry.Start as a byte offset. Capacity 20 (5 IPv4 hosts per group),
